@@ -12,6 +12,7 @@
 //                            the default pool) suspend/resume processing units they own, submit tasks with and
 //                            without hints, optionally suspend/resume the whole pool; monitors only.
 //   GATE <id> <k>            deterministic hand-shake scenarios using hook 1907/1902 as a gate.
+//   LOWP <id>                low-priority tasks staged, then the last processing unit is suspended (known finding).
 // Monitors (evaluated here, independent of the model): completion ledger (every task exactly once), no task
 // body on a processing unit whose suspend call has returned, calls return (watchdog), tasks complete on the
 // remaining workers without any resume, enqueue happens under the PU lock, hand-shake state sequence.
@@ -70,9 +71,39 @@ static inline std::uint64_t mix(std::uint64_t x)
     return x;
 }
 
+static thread_local bool tl_in_submit = false;    // the calling thread is inside submit() of this harness
+static void perturb(int site)
+{
+    std::uint64_t s = perturb_seed.load(std::memory_order_relaxed);
+    if (s == 0) return;
+    std::uint64_t r = mix(s + 0x9e3779b97f4a7c15ULL * hook_ctr.fetch_add(1, std::memory_order_relaxed) + site);
+    if ((r & 3) == 0)
+    {
+        auto d = std::chrono::microseconds((r >> 8) % (site == 1909 && (r & 48) == 0 ? 2000 : 300));
+        auto t0 = std::chrono::steady_clock::now();
+        if ((r & 4) != 0) std::this_thread::sleep_for(d);
+        else
+            while (std::chrono::steady_clock::now() - t0 < d) std::this_thread::yield();
+    }
+}
+
 static void hook(int site, void const* obj, std::uint64_t a, std::uint64_t b)
 {
-    if (site < 1901 || site > 1908) return;
+    if (site < 1901 || site > 1909) return;
+    if (site == 1909)
+    {
+        // thread_queue::create_thread entry (the enqueue itself): only for submissions made by this harness
+        if (!tl_in_submit) return;
+        if (gate_armed.load() && gate_site.load() == 1909)
+        {
+            gate_reached.store(true);
+            auto t0 = std::chrono::steady_clock::now();
+            while (gate_armed.load() && std::chrono::steady_clock::now() - t0 < 20s) std::this_thread::sleep_for(50us);
+            return;
+        }
+        perturb(site);
+        return;
+    }
     if (obj != SCHED) return;    // only the pool under test
     auto* sb = static_cast<pika::threads::detail::scheduler_base const*>(obj);
     switch (site)
@@ -101,19 +132,7 @@ static void hook(int site, void const* obj, std::uint64_t a, std::uint64_t b)
         while (gate_armed.load() && std::chrono::steady_clock::now() - t0 < 20s) std::this_thread::sleep_for(50us);
         return;
     }
-    std::uint64_t s = perturb_seed.load(std::memory_order_relaxed);
-    if (s != 0)
-    {
-        std::uint64_t r = mix(s + 0x9e3779b97f4a7c15ULL * hook_ctr.fetch_add(1, std::memory_order_relaxed) + site);
-        if ((r & 3) == 0)
-        {
-            auto d = std::chrono::microseconds((r >> 8) % 300);
-            auto t0 = std::chrono::steady_clock::now();
-            if ((r & 4) != 0) std::this_thread::sleep_for(d);
-            else
-                while (std::chrono::steady_clock::now() - t0 < d) std::this_thread::yield();
-        }
-    }
+    perturb(site);
 }
 
 // ---------------------------------------------------------------- watchdog
@@ -180,10 +199,12 @@ static void submit(int hint)    // hint < 0: none
         ndone.fetch_add(1);
     };
     ex::thread_pool_scheduler sched{TP};
+    tl_in_submit = true;
     if (hint >= 0)
         ex::execute(ex::with_hint(sched, pika::execution::thread_schedule_hint(std::int16_t(hint))), body);
     else
         ex::execute(sched, body);
+    tl_in_submit = false;
 }
 static bool suspend_pu(int w) { pika::error_code ec(pika::throwmode::lightweight); TP->suspend_processing_unit_direct(w, ec); return bool(ec); }
 static bool resume_pu(int w) { pika::error_code ec(pika::throwmode::lightweight); TP->resume_processing_unit_direct(w, ec); return bool(ec); }
@@ -264,14 +285,14 @@ static void run_seq(std::string const& id, std::string const& opss, std::string 
     auto exp = split(exps, ',');
     std::printf("IN SEQ %s nw=%d el=%d st=%d ops=%s\n", id.c_str(), NW, int(EL), int(ST), opss.c_str());
     std::fflush(stdout);
-    begin_case("SEQ", id, 120);
+    begin_case("SEQ", id, 45);
     std::string out;
     for (std::size_t i = 0; i < ops.size(); ++i)
     {
         inflight_op = int(i);
         bool e = do_op(ops[i]);
         int want = i < exp.size() ? std::atoi(exp[i].c_str()) : 0;
-        wait_done(want, 4000);
+        wait_done(want, 3000);
         std::this_thread::sleep_for(1ms);
         if (i) out += "|";
         out += std::string(e ? "e1:" : "e0:") + states_str() + ":" + std::to_string(ndone.load());
@@ -297,7 +318,7 @@ static void run_conc(std::string const& id, std::uint64_t seed, int nact, int no
     std::printf("IN CONC %s nw=%d el=%d st=%d seed=%llu nact=%d nops=%d poolops=%d\n", id.c_str(), NW, int(EL), int(ST),
         (unsigned long long) seed, nact, nops, poolops);
     std::fflush(stdout);
-    begin_case("CONC", id, 60);
+    begin_case("CONC", id, 40);
     perturb_seed = seed * 2 + 1;
     std::vector<std::thread> th;
     std::atomic<int> errs{0};
@@ -378,9 +399,36 @@ static void run_gate(std::string const& id, int kind)
 {
     std::printf("IN GATE %s nw=%d el=%d st=%d kind=%d\n", id.c_str(), NW, int(EL), int(ST), kind);
     std::fflush(stdout);
-    begin_case("GATE", id, 60);
+    begin_case("GATE", id, 40);
     int const last = NW - 1;
     bool e = false;
+    if (kind == 3)
+    {
+        // a submitter that has selected the (running) last worker under its PU lock is stopped at the enqueue itself; a
+        // suspend of that worker issued meanwhile must wait for the lock: it may not complete while the submitter is parked,
+        // and the task, enqueued before the CAS, must be run by the worker before it sleeps
+        gate_site = 1909; gate_reached = false; gate_armed = true;
+        std::thread t([&] { submit(last); });
+        bool reached = wait_flag(gate_reached, 10000);
+        std::atomic<bool> returned{false};
+        std::atomic<int> done_at_return{-1};
+        std::thread s([&] { e = suspend_pu(last) || e; done_at_return = ndone.load(); returned = true; });
+        std::this_thread::sleep_for(100ms);
+        bool early = returned.load();
+        std::string st_parked = states_str();
+        gate_armed = false;
+        t.join();
+        wait_flag(returned, 20000);
+        s.join();
+        std::string st_ret = states_str();
+        resume_all_quiet();
+        bool all = wait_done(nsub.load(), 20000);
+        std::printf("OUT GATE %s reached=%d returned_while_parked=%d states_while_parked=%s done_at_return=%d states_at_return=%s err=%d all=%d %s\n",
+            id.c_str(), int(reached), int(early), st_parked.c_str(), done_at_return.load(), st_ret.c_str(), int(e), int(all), ledger_check().c_str());
+        std::fflush(stdout);
+        end_case();
+        return;
+    }
     for (int w = 0; w < last; ++w) e = suspend_pu(w) || e;    // everyone but the last worker sleeps
     if (kind == 1)
     {
@@ -426,6 +474,50 @@ static void run_gate(std::string const& id, int kind)
         std::printf("OUT GATE %s reached=%d early_return=%d states_at_return=%s ran_after_resume=%d err=%d all=%d %s\n", id.c_str(),
             int(reached), int(early), st_ret.c_str(), int(ranit), int(e), int(all), ledger_check().c_str());
     }
+    std::fflush(stdout);
+    end_case();
+}
+
+// ---------------------------------------------------------------- LOWP
+// low-priority tasks are staged in the pool-wide low-priority queue, which only the LAST worker converts (and only
+// while `running`), but whose length counts into the last worker's get_queue_length: told to sleep, the last worker
+// can neither run them nor sleep.  The scenario: stage low-priority tasks, suspend the last processing unit.
+static void run_lowp(std::string const& id)
+{
+    std::printf("IN LOWP %s nw=%d el=%d st=%d\n", id.c_str(), NW, int(EL), int(ST));
+    std::fflush(stdout);
+    begin_case("LOWP", id, 60);
+    int const last = NW - 1;
+    int const n = 30;
+    for (int i = 0; i < n; ++i)
+    {
+        int tid = nsub.fetch_add(1);
+        ex::execute(ex::with_priority(ex::thread_pool_scheduler{TP}, pika::execution::thread_priority::low), [tid] {
+            std::this_thread::sleep_for(20us);
+            ran[tid].fetch_add(1);
+            ndone.fetch_add(1);
+        });
+    }
+    std::atomic<bool> returned{false};
+    std::thread s([&] { suspend_pu(last); returned = true; });
+    bool ret = wait_flag(returned, 3000);
+    int done_then = ndone.load();
+    std::string st_then = states_str();
+    bool stuck_more = false;
+    if (!ret)
+    {
+        std::this_thread::sleep_for(500ms);
+        stuck_more = !returned.load() && ndone.load() == done_then;
+        // no API call gets the worker out of pre_sleep: put it back to running by hand so that the harness can go on
+        pika::runtime_state exp = pika::runtime_state::pre_sleep;
+        TP->get_scheduler()->get_state(last).compare_exchange_strong(exp, pika::runtime_state::running);
+        wait_flag(returned, 20000);
+    }
+    s.join();
+    resume_all_quiet();
+    bool all = wait_done(nsub.load(), 20000);
+    std::printf("OUT LOWP %s returned=%d done_then=%d of=%d states_then=%s no_progress=%d all=%d %s\n", id.c_str(), int(ret), done_then, n,
+        st_then.c_str(), int(stuck_more), int(all), ledger_check().c_str());
     std::fflush(stdout);
     end_case();
 }
@@ -479,6 +571,7 @@ int main(int argc, char** argv)
         else if (f[0] == "CONC" && f.size() >= 6)
             run_conc(f[1], std::strtoull(f[2].c_str(), nullptr, 10), std::atoi(f[3].c_str()), std::atoi(f[4].c_str()), std::atoi(f[5].c_str()));
         else if (f[0] == "GATE" && f.size() >= 3) run_gate(f[1], std::atoi(f[2].c_str()));
+        else if (f[0] == "LOWP") run_lowp(f[1]);
     }
     pika::verif::hook.store(nullptr);
     case_deadline_ms = now_ms() + 30000; cur_kind = "EXIT"; cur_id = "shutdown";
